@@ -8,5 +8,5 @@ EmitAll == Emit({ [op |-> p, arr |-> a, form |-> "float"] : p \in TwinPairs, a \
                 \cup { [op |-> p, arr |-> a, form |-> f] : p \in EstimatorPairs, a \in { x \in Arrangements : Len(x) = 2 \/ (Len(x) = 5 /\ x[1] = x[2]) },
                                                             f \in {"held-first", "held-second"} }
                 \cup { [op |-> p, arr |-> a, form |-> "nan-entry"] : p \in NanPairs, a \in { x \in Arrangements : Len(x) <= 2 } })
-NsThorough == {1, 2, 5, 7}
+NsThorough == {1, 2, 3, 4, 5, 7}
 =============================================================================
